@@ -49,8 +49,10 @@ func check(t *testing.T, c Case) (v harness.Verdict) {
 		v.Failf("setup-refused", "%s", o.setupErr)
 		return
 	}
-	if o.stormed {
-		v.Failf("request-storm", "more than %d requests reached the source log; the run was aborted", requestBudget)
+	if o.stormed && o.stormKind == "restart-storm" {
+		v.Failf("restart-storm", "more than %d rounds of reading the destination root and fetching a tail without any progress (no fault consumed, no new index written, no growth, no scheduled event); the run was aborted", idleTailLimit)
+	} else if o.stormed {
+		v.Failf("request-storm", "more than %d requests reached the source log without any progress (no fault consumed, no new index written, no growth, no scheduled event); the run was aborted", idleReqLimit)
 	}
 	if o.timedOut {
 		v.Failf("non-termination", "the run did not end within 96 h of virtual time (passes completed: %d of %d)", len(o.passes), c.Passes)
@@ -286,26 +288,27 @@ func check(t *testing.T, c Case) (v harness.Verdict) {
 				v.Class("complete-pass")
 			}
 		}
-		if !pr.ErrNil && !pr.Cancelled && !o.stormed {
+		if !pr.ErrNil && !pr.Cancelled {
 			explained := passFaults[p] || forkSeen || fatalSeen || quotaFlagged[p]
 			// where did it stop? an unparsable certificate must not stop the copy
-			stuck := int64(-1)
+			stuck, bad := int64(-1), int64(-1)
 			for idx := int64(pr.RootAtStart); idx < int64(lastSTH[p]); idx++ {
 				if _, ok := held(idx); !ok {
 					stuck = idx
 					break
 				}
 			}
-			bad := int64(-1)
 			for idx := stuck; stuck >= 0 && idx < stuck+int64(c.Batch) && idx < int64(lastSTH[p]); idx++ {
 				if !tr[idx].Parsable {
 					bad = idx
 					break
 				}
 			}
-			if !explained && bad >= 0 {
+			switch {
+			case explained:
+			case bad >= 0:
 				v.Failf("unparsable-entry-not-copied", "pass %d failed with %q; the first batch it left out (from index %d) contains index %d, an entry whose certificate does not parse (no fault that may end a pass was injected)", p, pr.Err, stuck, bad)
-			} else if !explained {
+			case !o.stormed:
 				v.Failf("pass-aborted-without-fault", "pass %d failed with %q although no fault that may end a pass was injected (no get-sth / consistency fault, no fatal destination reply, no cancellation, destination not forked)", p, pr.Err)
 			}
 		}
